@@ -140,8 +140,7 @@ def async_rules(R, ctx):
     for spawner in ('writers::file_log_writer::state::start_async_fs_writer', 'threads::start_async_stdwriter'):
         b = f.bodies.get(spawner)
         if b is None:
-            R.bad('R03.3', f"{spawner}|single-consumer", f"{spawner} not found", where=None)
-            continue
+            raise CheckError(f"R03.3: anchor {spawner} not found (renamed beyond what the baseline matching resolves, or removed): the single-consumer rule cannot be decided")
         spawns = [bb for bb, t in b.calls() if callee_name(t) == 'std::thread::Builder::spawn']
         # the thread entries this function spawns; the consumer is the one that reaches a blocking recv (in its own body or in a named function it calls)
         RECV = lambda n_, t_: n_.endswith('Receiver::<T>::recv')
